@@ -5,7 +5,7 @@ import common
 from common import qlit, zlit, slit
 
 PRE = ('From Coq Require Import ZArith QArith List String Bool.\n'
-       'Require Import WV.model.C14Page WV.model.C14Box WV.model.C14Pages WV.model.C14Pdf WV.model.C14Doc.\n'
+       'Require Import WV.model.C14Page WV.model.C14Box WV.model.C14Pages WV.model.C14Pdf WV.model.C14Doc WV.model.C14Margin.\n'
        'Import ListNotations.\nOpen Scope string_scope.\nOpen Scope list_scope.\nOpen Scope Z_scope.\n')
 PREQ = PRE + 'Open Scope Q_scope.\n'
 
@@ -284,7 +284,7 @@ def check(run):
     rng = random.Random(run.seed * 7919 + 14)
     T = run.tier == 'thorough'
     common.prove(run, 'C14', ['model/C14Page.vo', 'model/C14Box.vo', 'model/C14Pages.vo', 'model/C14Pdf.vo',
-                              'model/C14Doc.vo'])
+                              'model/C14Doc.vo', 'model/C14Margin.vo'])
     run.trusted += ['Coq 8.16.1 kernel (coqc); vm_compute for the cases.v evaluation',
                     'hand-written Gallina models coq/model/C14*.v (tied to /repo only by the correspondence streams of this check)',
                     'harness stubs (SimpleNamespace/Fraction), test doubles for min/max_content_width in cvd-direct, '
@@ -624,6 +624,12 @@ Definition cvd_judge_approx (c : Q * (mbox * mbox * mbox) * bool * option ((Q * 
 '''
 
 
+def cs_lit(st):
+    def o(x):
+        return 'None' if x == 'auto' else '(Some %s)' % lst(x, lambda nv: '(%s, %s)' % (slit(nv[0]), zlit(nv[1])))
+    return '(mkCS %s %s %s)' % (o(st['counter_set']), o(st['counter_reset']), o(st['counter_increment']))
+
+
 def fits_py(c):
     def omin(x):
         return Fraction(x['pb']) + sum(Fraction(x[k]) for k in ('ma', 'mb') if x[k] != 'auto') + \
@@ -666,7 +672,7 @@ def gen_pages_doc(rng, maxpages):
     # rules
     rules = [dict(sels=[(None, [])], decls=[('margin_left', 20, False), ('margin_right', 20, False)], mdecls=[])]
     for r in range(rng.choice([0, 1, 2, 3, 4, 6])):
-        nsel = rng.choice([1, 1, 1, 2])
+        nsel = rng.choice([1, 1, 2, 2, 3])
         sels = []
         for _ in range(nsel):
             name, ps = gen_abstract_selector(rng, nonempty=(nsel > 1))
@@ -683,10 +689,14 @@ def gen_pages_doc(rng, maxpages):
             prop = rng.choice(['counter_increment', 'counter_increment', 'counter_reset', 'counter_set'])
             v = rng.randint(0, 9) + (1000 if rng.random() < 0.2 else 0)
             decls.append((prop, v, rng.random() < 0.15))
-        mdecls = [('content', r + 1, rng.random() < 0.15)] if rng.random() < 0.5 else []
+        mdecls = [('content', r + 1, rng.random() < 0.15)] if rng.random() < (0.8 if nsel > 1 else 0.5) else []
         if not decls and not mdecls:
             decls.append(('margin_left', 30, False))
         rules.append(dict(sels=sels, decls=decls, mdecls=mdecls))
+    return pages_doc(ltr, root_break, m, sections, rules, rng)
+
+
+def pages_doc(ltr, root_break, m, sections, rules, rng):
     H = m * 10 + 30
     css = ''
     for r in rules:
@@ -723,6 +733,22 @@ def drule_lit(r):
         lst(r['sels'], lambda s: '(%s, %s)' % (opt(s[0], slit), lst(s[1], pseudo_lit))),
         lst(r['decls'], lambda d: '(%s, %s, %s)' % (slit(d[0]), zlit(d[1]), blit(d[2]))),
         lst(r['mdecls'], lambda d: '(%s, %s, %s)' % (slit(d[0]), zlit(d[1]), blit(d[2]))))
+
+
+def doc_case(d, o):
+    """Coq case of doc_judge for one rendered document"""
+    def obs(p):
+        tl = p['texts'].get('@top-left', '')
+        ids = [r + 1 for r in range(len(d['rules']) - 1) if code(r + 1) == tl]
+        cnt = p['texts'].get('@bottom-center', '/').split('/')[0]
+        return '(%s, %s, %s, %s)' % (zlit(int(round(p['ml']))), zlit(int(round(p['mr']))), zlit(ids[0] if ids else (0 if tl == '' else -1)),
+                                     opt(int(cnt) if cnt.lstrip('-').isdigit() else None, zlit))
+    return '(%s, (20, 20), %s, %s)' % (
+        lst(d['rules'], drule_lit),
+        lst(o, lambda p: pt_lit([p['side'], p['blank'], p['name'], p['index'], p['groups']])), lst(o, obs))
+
+
+DOC_T = 'list drule * (Z * Z) * list page_type * list page_obs'
 
 
 def judge_pages_doc(doc, pages):
@@ -1040,6 +1066,11 @@ def gen_pdf_doc(rng):
 def t_pages_render(run, rng, T):
     maxpages = 40 if T else 15
     docs = [gen_pages_doc(rng, maxpages) for _ in range(600 if T else 150)]
+    # a selector list whose body has page declarations and a margin box; pages 1 (:first), 2 (:left), 3 (neither)
+    docs[0] = pages_doc(True, None, 3, [(None, '', 3), ('page', '', 3), ('page', '', 2)],
+                        [dict(sels=[(None, [])], decls=[('margin_left', 20, False), ('margin_right', 20, False)], mdecls=[]),
+                         dict(sels=[(None, [('first',)]), (None, [('left',)])], decls=[('margin_left', 45, False), ('margin_right', 35, False)],
+                              mdecls=[('content', 1, False)])], rng)
     outs = yield impl('pages_render', [{'html': d['html']} for d in docs])
     side_cases, doc_cases, kept = [], [], []
     harness_bad = []
@@ -1066,21 +1097,13 @@ def t_pages_render(run, rng, T):
         side_cases.append('(%s, %s, %s, %s)' % (blit(d['ltr']), BRK[d['root_break']], lst(breaks),
                                                lst(o, lambda p: '(%s, %s)' % (sidelit(p['side']), blit(p['blank'])))))
 
-        def obs(p):
-            tl = p['texts'].get('@top-left', '')
-            ids = [r + 1 for r in range(len(d['rules']) - 1) if code(r + 1) == tl]
-            cnt = p['texts'].get('@bottom-center', '/').split('/')[0]
-            return '(%s, %s, %s, %s)' % (zlit(int(round(p['ml']))), zlit(int(round(p['mr']))), zlit(ids[0] if ids else (0 if tl == '' else -1)),
-                                         opt(int(cnt) if cnt.lstrip('-').isdigit() else None, zlit))
-        doc_cases.append('(%s, (20, 20), %s, %s)' % (
-            lst(d['rules'], drule_lit),
-            lst(o, lambda p: pt_lit([p['side'], p['blank'], p['name'], p['index'], p['groups']])), lst(o, obs)))
+        doc_cases.append(doc_case(d, o))
         kept.append(d)
     run.oblige('harness:pagination-prediction(pages-render documents paginate as the generator assumes)', not harness_bad,
                '%d documents; first: %s' % (len(harness_bad), harness_bad[0] if harness_bad else ''))
     masks, masks2 = yield ('evals', [
         coq('c14sides', PRE, 'bool * brk * list brk * list (side * bool)', side_cases, 'sides_judge', per_file=20),
-        coq('c14doc', PRE, 'list drule * (Z * Z) * list page_type * list page_obs', doc_cases, 'doc_judge', per_file=12)])
+        coq('c14doc', PRE, DOC_T, doc_cases, 'doc_judge', per_file=12)])
     if isinstance(masks, Exception):
         run.oblige('corr:pages-render/sides', False, str(masks))
     else:
@@ -1095,6 +1118,14 @@ def t_pages_render(run, rng, T):
     if isinstance(masks2, Exception):
         run.oblige('corr:pages-render/cascade+counter', False, str(masks2))
     else:
+        shown = 0
+        for d, m in zip(kept, masks2):
+            if m & 2 and shown < 2:
+                shown += 1
+                run.fail('pages-render: some page does not get the margins / @top-left content / counter(page) that its @page rules '
+                         'give when every selector of a selector list stands for its own rule with the same body',
+                         {'stream': 'pages-render', 'html': d['html'], 'clause': 'page-rules-reference', 'doc': strip_doc(d)},
+                         signature='page-rules-reference')
         bad = [d for d, m in zip(kept, masks2) if m & 1]
         run.oblige('corr:pages-render/cascade+counter(selectors, specificity, cascade, page counter vs rendered margins, '
                    'margin-box content and counter(page))', not bad, 'first: %s' % (bad[0]['html'] if bad else ''))
@@ -1476,9 +1507,189 @@ def t_groups_render(run, rng, T):
                     'each setting its own margin-left; every page judged against `exists n>=0, a*n+b = position in group`')
 
 
+MB_ORDER = ['%s-%s' % (a, b) for a in ('top', 'bottom') for b in ('left', 'center', 'right')] + \
+    ['%s-%s' % (a, b) for a in ('left', 'right') for b in ('top', 'middle', 'bottom')] + CORNERS
+ITEM_LIT = {'open': 'IOpen', 'close': 'IClose', 'no-open': 'INoOpen', 'no-close': 'INoClose', 'pages': 'IPages'}
+CODES = {}
+
+
+def gen_marginstate_doc(rng, maxpages):
+    npages = rng.randint(2, maxpages)
+
+    def ops(kind):
+        r = rng.random()
+        if r < 0.45:
+            return 'auto'
+        names = ['page', 'c'] if kind != 'counter_set' or rng.random() < 0.5 else ['c']
+        return [[rng.choice(names), rng.choice([1, 1, 2, 3, 5, -1])] for _ in range(rng.choice([1, 1, 2]))]
+
+    def gen_box(p_touch):
+        st = {k: 'auto' for k in ('counter_set', 'counter_reset', 'counter_increment')}
+        if rng.random() < p_touch:
+            k = rng.choice(['counter_increment', 'counter_increment', 'counter_reset', 'counter_set'])
+            st[k] = [[rng.choice(['page', 'c', 'c']), rng.choice([1, 1, 2, 3, 5])]]
+            if rng.random() < 0.25:
+                k2 = rng.choice(['counter_increment', 'counter_reset'])
+                if st[k2] == 'auto':
+                    st[k2] = [[rng.choice(['page', 'c']), rng.choice([1, 2, 4])]]
+        items = []
+        for _ in range(rng.choice([1, 2, 3, 4])):
+            r = rng.random()
+            if r < 0.3:
+                items.append(('counter', 'page'))
+            elif r < 0.5:
+                items.append(('counter', 'c'))
+            elif r < 0.58:
+                items.append(('pages',))
+            elif r < 0.75:
+                items.append(('open',))
+            elif r < 0.85:
+                items.append(('close',))
+            elif r < 0.9:
+                items.append((rng.choice(['no-open', 'no-close']),))
+            else:
+                items.append(('text', rng.randint(0, 200)))
+        return dict(style=st, items=items)
+    page_style = {k: 'auto' for k in ('counter_set', 'counter_reset', 'counter_increment')}
+    r = rng.random()
+    if r < 0.15:
+        page_style['counter_increment'] = [['page', 2]]
+    elif r < 0.3:
+        page_style['counter_reset'] = [['c', 3]]
+    elif r < 0.45:
+        page_style['counter_increment'] = [['c', 2], ['page', 1]]
+    ats = sorted(rng.sample(MB_ORDER, rng.choice([2, 2, 3, 4, 5, 6])), key=MB_ORDER.index)
+    p_touch = rng.choice([0.3, 0.5, 0.8])
+    boxes = {at: gen_box(p_touch) for at in ats}
+    left_extra = None
+    if rng.random() < 0.3:
+        rest = [a for a in MB_ORDER if a not in boxes]
+        left_extra = (rng.choice(rest), gen_box(0.7))
+
+    def style_text(st):
+        out = []
+        for k in ('counter_reset', 'counter_increment', 'counter_set'):
+            if st[k] != 'auto':
+                out.append('%s:%s' % (k.replace('_', '-'), ' '.join('%s %d' % (n, v) for n, v in st[k])))
+        return ';'.join(out)
+
+    def box_text(at, b):
+        parts = []
+        for it in b['items']:
+            if it[0] == 'counter':
+                parts.append('counter(%s)' % it[1])
+            elif it[0] == 'pages':
+                parts.append('counter(pages)')
+            elif it[0] == 'text':
+                parts.append('"%s"' % code(it[1]))
+            else:
+                parts.append('%s-quote' % it[0])
+        d = style_text(b['style'])
+        return '@%s{%scontent:%s}' % (at, d + ';' if d else '', ' "." '.join(parts))
+    css = '@page{size:400px 300px;margin:60px;quotes:"(" ")" "[" "]";%s;%s}' % (
+        style_text(page_style), ''.join(box_text(at, b) for at, b in boxes.items()))
+    if left_extra:
+        css += '@page :left{%s}' % box_text(*left_extra)
+    css += BASE % 'quotes:"(" ")" "[" "]"' + 'p{break-after:page}'
+    return dict(html='<style>%s</style>%s' % (css, '<p>aa</p>' * npages), npages=npages, page_style=page_style, boxes=boxes,
+                left_extra=left_extra)
+
+
+def marginstate_cases(doc, pages):
+    """one Coq case (marginstate_judge) per page, or a string when the document is not as the generator assumes"""
+    if not CODES:
+        for k in range(512):
+            CODES.setdefault(code(k), k)
+    if len(pages) != doc['npages']:
+        return 'expected %d pages, got %d' % (doc['npages'], len(pages))
+    styles = lst([doc['page_style']] * doc['npages'], cs_lit)
+
+    def item_lit(it):
+        if it[0] == 'counter':
+            return '(ICounter %s)' % slit(it[1])
+        if it[0] == 'text':
+            return '(IText %s)' % zlit(it[1])
+        return ITEM_LIT[it[0]]
+
+    def shown(text, n):
+        toks = text.split('.')
+        if len(toks) != n:
+            return '[(9, 9)]'
+        res = []
+        for t in toks:
+            if t == '':
+                res.append('(0, 0)')
+            elif t.lstrip('-').isdigit():
+                res.append('(1, %s)' % zlit(int(t)))
+            elif t in '([':
+                res.append('(3, %d)' % '(['.index(t))
+            elif t in ')]':
+                res.append('(4, %d)' % ')]'.index(t))
+            elif t in CODES:
+                res.append('(2, %s)' % zlit(CODES[t]))
+            else:
+                res.append('(9, 9)')
+        return lst(res)
+    out = []
+    for k, p in enumerate(pages):
+        boxes = dict(doc['boxes'])
+        if doc['left_extra'] and p['side'] == 'left':
+            boxes[doc['left_extra'][0]] = doc['left_extra'][1]
+        ats = sorted(boxes, key=MB_ORDER.index)
+        if sorted('@' + a for a in ats) != sorted(p['texts']):
+            return 'page %d has margin boxes %s, expected %s' % (k + 1, sorted(p['texts']), ats)
+        decls = lst(ats, lambda a: '(mkMD %s %s)' % (cs_lit(boxes[a]['style']), lst(boxes[a]['items'], item_lit)))
+        sh = lst(ats, lambda a: shown(p['texts']['@' + a], len(boxes[a]['items'])))
+        out.append(('(["page"; "c"], %s, %d%%nat, %s, %s)' % (styles, k, decls, sh), k, {a: p['texts']['@' + a] for a in ats}))
+    return out
+
+
+MS_T = 'list string * list cstyle * nat * list mdecl * list (list out)'
+
+
+def t_marginstate_render(run, rng, T):
+    docs = [gen_marginstate_doc(rng, 8 if T else 5) for _ in range(360 if T else 90)]
+    outs = yield impl('pages_render', [{'html': d['html']} for d in docs])
+    cases, meta, harness_bad = [], [], []
+    nboxes = 0
+    for d, (st, o) in zip(docs, outs):
+        if st != 'ok':
+            run.fail('marginstate-render: render %s' % (o['type'] if st == 'exc' else st), {'stream': 'marginstate-render', 'html': d['html'], 'outcome': o},
+                     signature='crash:%s' % ((o or {}).get('site'),) if st == 'exc' else 'timeout')
+            continue
+        cs = marginstate_cases(d, o)
+        if isinstance(cs, str):
+            harness_bad.append(cs + '\n' + d['html'])
+            continue
+        for c in cs:
+            cases.append(c[0]); meta.append((d, c[1], c[2])); nboxes += len(c[2])
+    run.oblige('harness:marginstate-render documents are as the generator assumes', not harness_bad,
+               '%d documents; first: %s' % (len(harness_bad), harness_bad[0] if harness_bad else ''))
+    masks = yield coq('c14mstate', PRE, MS_T, cases, 'marginstate_judge', per_file=120)
+    if isinstance(masks, Exception):
+        run.oblige('corr:marginstate-render', False, str(masks))
+    else:
+        bad = [x for x, m in zip(meta, masks) if m & 1]
+        run.oblige('corr:marginstate-render(model of make_margin_boxes counters/quotes vs rendered margin box texts)', not bad,
+                   'first: page %s of %s' % ((bad[0][1] + 1, bad[0][0]['html']) if bad else ('', '')))
+        shown = 0
+        for (d, k, texts), m in zip(meta, masks):
+            if m & 2 and shown < 2:
+                shown += 1
+                run.fail('marginstate-render: on page %d a margin box does not show the page\'s counters / quote depth combined with '
+                         'its OWN counter-* declarations and quotes (texts: %s)' % (k + 1, texts),
+                         {'stream': 'marginstate-render', 'html': d['html'], 'page': k + 1, 'doc': strip_doc(d)},
+                         signature='margin-box-state-leak')
+    run.count('marginstate-render', len(cases), cases, samples=[docs[0]['html'][:600]])
+    run.stream_info('marginstate-render', margin_boxes=nboxes,
+                    rule='2..5 pages x 2-6 margin boxes (plus one only on :left pages) in creation order; each may counter-increment / '
+                         'counter-reset / counter-set `page` or a custom counter and shows counter(page), counter(c), counter(pages), '
+                         'open/close/no-open/no-close-quote, text; @page itself may increment page by 2, reset or increment c')
+
+
 # (task, index of its random stream): the order is the order in which failing inputs are reported, the index keeps every
 # stream's cases independent of that order
-TASKS = [(t_groups_render, 16), (t_pages_render, 0), (t_strings_render, 1), (t_marginbox_render, 2), (t_pdf_render, 3), (t_sizes, 4),
+TASKS = [(t_groups_render, 16), (t_marginstate_render, 17), (t_pages_render, 0), (t_strings_render, 1), (t_marginbox_render, 2), (t_pdf_render, 3), (t_sizes, 4),
          (t_nth, 5), (t_nth_group, 15), (t_match, 6), (t_parse, 7), (t_cascade, 8), (t_pwh, 9), (t_cfd, 10), (t_cvd, 11),
          (t_cvd_vertical, 12), (t_counters, 13), (t_strings, 14)]
 
@@ -1528,6 +1739,35 @@ def replay(data):
             for i, p in enumerate(o):
                 print('replay: page', i + 1, p['heads'], p['first_is_head'], p['texts'])
         return 1
+    if stream == 'marginstate-render':
+        (st, o), = common.run_impl('impl_c14', 'pages_render', [{'html': d['html']}])
+        if st != 'ok':
+            print('replay: render', st, o); return 1
+        doc = dict(d['doc']); doc['html'] = d['html']
+        if doc['left_extra']:
+            doc['left_extra'] = tuple(doc['left_extra'])
+        for b in list(doc['boxes'].values()) + ([doc['left_extra'][1]] if doc['left_extra'] else []):
+            b['items'] = [tuple(i) for i in b['items']]
+        cs = marginstate_cases(doc, o)
+        if isinstance(cs, str):
+            print('replay:', cs); return 1
+        masks = common.eval_cases('c14replay', PRE, MS_T, [c[0] for c in cs], 'marginstate_judge')
+        for c, m in zip(cs, masks):
+            print('replay: page %d margin boxes show %s %s' % (c[1] + 1, c[2], 'WRONG' if m & 2 else ''))
+        return 1 if any(m & 2 for m in masks) else 0
+    if stream == 'pages-render' and d.get('clause') == 'page-rules-reference':
+        (st, o), = common.run_impl('impl_c14', 'pages_render', [{'html': d['html']}])
+        if st != 'ok':
+            print('replay: render', st, o); return 1
+        doc = dict(d['doc'])
+        for r in doc['rules']:
+            r['sels'] = [(n, [tuple(p) for p in ps]) for n, ps in r['sels']]
+            r['decls'] = [tuple(x) for x in r['decls']]; r['mdecls'] = [tuple(x) for x in r['mdecls']]
+        for p in o:
+            print('replay:', p['index'], p['side'], repr(p['name']), 'margin-left', p['ml'], 'margin-right', p['mr'], p['texts'])
+        m = common.eval_cases('c14replay', PRE, DOC_T, [doc_case(doc, o)], 'doc_judge')
+        print('replay: judge mask', m)
+        return 1 if m[0] & 2 else 0
     if stream == 'groups-render':
         (st, o), = common.run_impl('impl_c14', 'pages_render', [{'html': d['html']}])
         if st != 'ok':
